@@ -347,29 +347,66 @@ def _interp_table(prog: Program, res: Result):
     if build is None or not (isinstance(build.target, ast.Tuple) and isinstance(build.target.elts[0], ast.Name)):
         raise AnalysisError(f"{q}: loop that builds the per-time interpolants not found")
     I = build.target.elts[0].id
-    inner = [lp for lp in build.body if isinstance(lp, ast.For)]
     itp = [c for c in ast.walk(build) if isinstance(c, ast.Call) and attr_chain(c.func) in ("interp1d", "lagrange") and len(c.args) >= 2]
-    ok = False
-    detail = "shape not understood"
-    if len(inner) == 1 and isinstance(inner[0].target, ast.Name) and ast.unparse(inner[0].iter) in ("self.g_lts", "self.g_lts.keys()") and itp:
-        K = inner[0].target.id
-        ap = appends_in(inner[0])
-        xs = {ast.unparse(c.args[0]) for c in itp}
-        ys = {ast.unparse(c.args[1]) for c in itp}
-        if len(xs) == 1 and len(ys) == 1:
-            xn, yn = next(iter(xs)), next(iter(ys))
-            xa = [inline_single_defs(inner[0], c.args[0]) for c in ap.get(xn, [])]
-            ya = [inline_single_defs(inner[0], c.args[0]) for c in ap.get(yn, [])]
-            okx = len(xa) == 1 and ast.unparse(xa[0]) in (f"float({K})", K)
-            oky = len(ya) == 1 and ast.unparse(ya[0]) == f"self.g_lts[{K}][{I}]"
-            fresh = all(any(isinstance(s_, ast.Assign) and len(s_.targets) == 1 and ast.unparse(s_.targets[0]) == nm and isinstance(s_.value, ast.List) and not s_.value.elts for s_ in build.body)
-                        for nm in (xn, yn))
-            ok = okx and oky and fresh and xn != yn
-            detail = f"x <- {[ast.unparse(a) for a in xa]}, y <- {[ast.unparse(a) for a in ya]}, lists reset per time index: {fresh}"
+    if not itp:
+        raise AnalysisError(f"{q}: per-time interpolant (interp1d / lagrange) not found")
+    xs = {ast.unparse(c.args[0]) for c in itp}
+    ys = {ast.unparse(c.args[1]) for c in itp}
+    if len(xs) != 1 or len(ys) != 1 or xs == ys:
+        raise AnalysisError(f"{q}: the interpolants do not share one abscissa list and one value list")
+    xn, yn = next(iter(xs)), next(iter(ys))
+
+    def describe(name: str):
+        """how the list `name` is filled: (element expression with the key variable written K, order 'storage' | 'sorted', where defined)
+        from appends in a loop over the stored heights, or a comprehension / sorted(generator) over them"""
+        def order_of(it):
+            t = ast.unparse(it)
+            if t in ("self.g_lts", "self.g_lts.keys()", "list(self.g_lts)", "list(self.g_lts.keys())"):
+                return "storage"
+            if t in ("sorted(self.g_lts)", "sorted(self.g_lts.keys())"):
+                return "sorted"
+            return None
+
+        out = []
+        for lp in ast.walk(fn):
+            if isinstance(lp, ast.For) and isinstance(lp.target, ast.Name) and order_of(lp.iter):
+                for c in ast.walk(lp):
+                    if isinstance(c, ast.Call) and isinstance(c.func, ast.Attribute) and c.func.attr == "append" and ast.unparse(c.func.value) == name and len(c.args) == 1:
+                        e = ast.unparse(inline_single_defs(lp, c.args[0])).replace(lp.target.id, "K")
+                        reset_in_build = any(isinstance(s_, ast.Assign) and len(s_.targets) == 1 and ast.unparse(s_.targets[0]) == name and isinstance(s_.value, ast.List) and not s_.value.elts for s_ in build.body)
+                        out.append((e, order_of(lp.iter), "per-time" if (any(lp is x for x in ast.walk(build)) and reset_in_build) else ("accumulating" if any(lp is x for x in ast.walk(build)) else "once")))
+        for s_ in ast.walk(fn):
+            if isinstance(s_, ast.Assign) and len(s_.targets) == 1 and ast.unparse(s_.targets[0]) == name:
+                v = s_.value
+                srt = False
+                if isinstance(v, ast.Call) and attr_chain(v.func) == "sorted" and len(v.args) == 1:
+                    v, srt = v.args[0], True
+                if isinstance(v, ast.Call) and attr_chain(v.func) == "list" and len(v.args) == 1:
+                    v = v.args[0]
+                if isinstance(v, (ast.ListComp, ast.GeneratorExp)) and len(v.generators) == 1 and not v.generators[0].ifs and isinstance(v.generators[0].target, ast.Name):
+                    o = order_of(v.generators[0].iter)
+                    if o:
+                        e = ast.unparse(v.elt).replace(v.generators[0].target.id, "K")
+                        out.append((e, "sorted" if srt else o, "per-time" if any(s_ is x for x in ast.walk(build)) else "once"))
+        return out
+
+    dx, dy = describe(xn), describe(yn)
+    if len(dx) != 1 or len(dy) != 1:
+        raise AnalysisError(f"{q}: how the abscissa / value lists of the interpolants are filled was not understood ({dx}, {dy})")
+    (ex, ox, wx), (ey, oy, wy) = dx[0], dy[0]
+    okx = ex in ("float(K)", "K")
+    oky = ey == f"self.g_lts[K][{I}]"
+    # a sorted list of heights pairs with values gathered in storage order only if the storage order is ascending - not guaranteed
+    same_order = ox == oy
+    fresh = wx in ("per-time", "once") and wy == "per-time"
+    ok = okx and oky and same_order and fresh
+    detail = f"x <- {ex} ({ox}, {wx}), y <- {ey} ({oy}, {wy})"
     res.ob("R11.5", f"per time index i the height interpolant is built from the pairs (h, g_lts[h][i]) of every stored height ({detail})", ok, prog.loc(fi, build))
     if not ok:
+        why = ("heights and values are collected in different orders" if not same_order else
+               "the lists are not rebuilt for every time index" if not fresh else "the pairs are not (h, g_lts[h][i])")
         res.violation("R11.5", f"table-build|{detail[:80]}", prog.loc(fi, build), q,
-                      f"the per-time height interpolants are not built from (h, g_lts[h][i]) for every stored height h ({detail}): interpolating at a stored height no longer returns the stored curve")
+                      f"the per-time height interpolants are not built from (h, g_lts[h][i]) for every stored height h: {why} ({detail}) - interpolating at a stored height no longer returns the stored curve")
     # ---- evaluation loop: for i in range(len(self.log_time)): f = table['g'][i]; g_function.append(f(h_eq))
     rets = [r for r in ast.walk(fn) if isinstance(r, ast.Return) and isinstance(r.value, ast.Tuple) and len(r.value.elts) == 4]
     ok2 = False
@@ -573,6 +610,14 @@ def _longtime(prog: Program, res: Result):
 
 
 VARIANTS = [
+    Variant("heights hoisted and sorted, values still gathered in storage order (seeded C11_c)", "break",
+            [(GF, "                x = []\n                y = []\n                for key in self.g_lts:\n                    height_value = float(key)\n                    g_value = self.g_lts[key][i]\n                    x.append(height_value)\n                    y.append(g_value)\n",
+              "                y = [self.g_lts[key][i] for key in self.g_lts]\n"),
+             (GF, "            for i, _ in enumerate(self.log_time):\n                y = [self.g_lts", "            x = sorted(float(key) for key in self.g_lts)\n            for i, _ in enumerate(self.log_time):\n                y = [self.g_lts")], "R11.5"),
+    Variant("heights hoisted, heights and values both in storage order", "benign",
+            [(GF, "                x = []\n                y = []\n                for key in self.g_lts:\n                    height_value = float(key)\n                    g_value = self.g_lts[key][i]\n                    x.append(height_value)\n                    y.append(g_value)\n",
+              "                y = [self.g_lts[key][i] for key in self.g_lts]\n"),
+             (GF, "            for i, _ in enumerate(self.log_time):\n                y = [self.g_lts", "            x = [float(key) for key in self.g_lts]\n            for i, _ in enumerate(self.log_time):\n                y = [self.g_lts")]),
     Variant("interpolation table reads the next time index of each stored curve", "break",
             [(GF, "                    g_value = self.g_lts[key][i]", "                    g_value = self.g_lts[key][i - 1]")], "R11.5"),
     Variant("height list not reset per time index", "break",
